@@ -161,10 +161,14 @@ fn big_still(rng: &mut Rng, k: usize) -> Still {
     let rb = img.row_bytes();
     img.h = (target / rb).max(2) as u32;
     let total = rb * img.h as usize;
-    let period = 20000 + rng.usize(0, 12000);
+    // every second large image has a period at the top of the deflate window: matches at distance 32768 - d, d in 0..3
+    let period = if k % 2 == 0 { 32768 - (k / 2) % 3 } else { 20000 + rng.usize(0, 12000) };
     let pat = rng.bytes(period);
     img.pixels = (0..total).map(|i| pat[i % period] ^ ((i / period) as u8 & 1)).collect();
-    Still { img, interlace: k % 2 == 1, filters: if k % 2 == 0 { Filters::Uniform(0) } else { Filters::Random }, deflater: Deflater::Level(6 + (k as u32 % 4)), split: if k % 2 == 0 { Split::One } else { Split::Fixed(40000) } }
+    // filter None so that the scanline stream itself has the period: the own emitter then produces matches at exactly
+    // `period` (the maximum legal distance 32768 for k % 4 == 0) across every compaction of the inflate window
+    let deflater = if k % 2 == 0 { Deflater::FixedDist(period) } else { Deflater::Level(6 + (k as u32 % 4)) };
+    Still { img, interlace: k % 2 == 1, filters: if k % 2 == 0 { Filters::Uniform(0) } else { Filters::Random }, deflater, split: if k % 4 == 0 { Split::One } else { Split::Fixed(40000) } }
 }
 
 pub fn run(ctx: &mut Ctx) {
